@@ -286,7 +286,7 @@ fn deep_positions(n: usize) -> Vec<u64> {
 
 pub fn run(tier: &str) -> Report {
     let mut rep = Report::new("model_checking");
-    let nmax = if tier == "quick" { 9 } else { 12 };
+    let nmax = if tier == "quick" { 10 } else { 12 };
     let tri = quintant_triangle();
     let tri_area = rg::shoelace(&tri);
     let mut evals = 0u64;
@@ -391,7 +391,7 @@ pub fn run(tier: &str) -> Report {
     };
     rep.set("jumping_order_pass_calls", json!(order_calls));
     // model: conformance, then exploration
-    let cn = if tier == "quick" { 8 } else { 10 };
+    let cn = if tier == "quick" { 9 } else { 10 };
     let (agreed, unbound) = conformance(cn);
     let mut states = 0;
     let mut transitions = 0;
